@@ -43,6 +43,9 @@ impl SyntaxParserTrait for AssignmentParser {
                             parser.consume_token();
                             break;
                         }
+
+                        /* An operator character inside a name (tax-rate) is part of the key the session files the variable under */
+                        variable_name.push_str(&token.to_string().to_lowercase()[..]);
                     }
                     _ => variable_name.push_str(&token.to_string().to_lowercase()[..])
                 };
